@@ -31,6 +31,8 @@ LOSS_CFG = [
     {'losses': [['[SK]', -10.0]], 'water_loss': True},
     # rules whose match depends on the string they are applied to: anchors, look-ahead, two residues
     {'losses': [['^S', -1.5], ['K$', -2.5]]}, {'losses': [['S(?=K)', -3.0], ['KK', -4.0]]},
+    # two rules with the same mass: their sites add up
+    {'losses': [['S', -10.0], ['K', -10.0]]}, {'losses': [['K', -18.01056]], 'water_loss': True},
 ]
 
 
